@@ -24,6 +24,10 @@ type generatedMethod struct {
 	Jen        jen.Code
 
 	IndexID method.IndexID
+
+	// AvailableContext are the contexts a generated method may require,
+	// nil for explicit methods: they can only use their own context.
+	AvailableContext map[string]*xtype.Type
 }
 
 type generator struct {
@@ -31,6 +35,10 @@ type generator struct {
 	conf   *config.Converter
 	lookup *method.Index[generatedMethod]
 	extend *method.Index[method.Definition]
+
+	// signatureChanged is set when a generated method got an error result or
+	// a context parameter, methods already built may call it with the old signature.
+	signatureChanged bool
 }
 
 func (g *generator) getGenMethods() []*generatedMethod {
@@ -46,6 +54,12 @@ func (g *generator) buildMethods(f *jen.File) error {
 		if err := g.buildDirtyMethods(); err != nil {
 			return err
 		}
+		if g.signatureChanged {
+			g.signatureChanged = false
+			for _, genMethod := range g.getGenMethods() {
+				genMethod.Dirty = true
+			}
+		}
 	}
 	g.appendGenerated(f)
 	return nil
@@ -57,7 +71,11 @@ func (g *generator) buildDirtyMethods() error {
 			continue
 		}
 		genMethod.Dirty = false
-		err := g.buildMethod(genMethod, genMethod.Context)
+		context := genMethod.Context
+		if genMethod.AvailableContext != nil {
+			context = genMethod.AvailableContext
+		}
+		err := g.buildMethod(genMethod, context)
 		if err != nil {
 			err = err.Lift(&builder.Path{
 				SourceID:   "source",
@@ -337,6 +355,7 @@ func (g *generator) ReturnError(ctx *builder.MethodContext, errPath builder.Erro
 			if !check.ReturnError {
 				check.ReturnError = true
 				check.Dirty = true
+				g.signatureChanged = true
 			}
 		}
 	}
@@ -372,6 +391,7 @@ func (g *generator) requireContext(ctx *builder.MethodContext, need *xtype.Type)
 			Type: need,
 		})
 		check.Dirty = true
+		g.signatureChanged = true
 	}
 	return true
 }
@@ -469,7 +489,7 @@ func (g *generator) Assign(
 	return g.assignNoLookup(ctx, assignTo, sourceID, source, target, errPath)
 }
 
-func (g generator) callExisting(
+func (g *generator) callExisting(
 	ctx *builder.MethodContext,
 	sourceID *xtype.JenID,
 	source, target *xtype.Type,
@@ -562,6 +582,7 @@ func (g *generator) createSubMethod(ctx *builder.MethodContext, sourceID *xtype.
 	}
 
 	genMethod.IndexID, _ = g.lookup.Register(genMethod, genMethod.Definition)
+	genMethod.AvailableContext = ctx.AvailableContext
 
 	if err := g.buildMethod(genMethod, ctx.AvailableContext); err != nil {
 		return nil, nil, err
